@@ -14,7 +14,7 @@ Import ListNotations.
 Require Import Clarabel.Base.Ops Clarabel.Csc.Model Clarabel.Kkt.Spec Clarabel.Kkt.Model Clarabel.Kkt.Stmts.
 Require Import Clarabel.Kkt.LemmasSchur Clarabel.Kkt.LemmasVals Clarabel.Kkt.LemmasSpec Clarabel.Kkt.LemmasDiag.
 Require Import Clarabel.Kkt.LemmasWf Clarabel.Kkt.LemmasFill Clarabel.Kkt.LemmasRefine Clarabel.Kkt.LemmasCone Clarabel.Kkt.LemmasCount Clarabel.Kkt.LemmasRaw.
-Require Import Clarabel.Kkt.LemmasOrder Clarabel.Kkt.LemmasDiagPos Clarabel.Kkt.LemmasAssemble Clarabel.Kkt.LemmasTril Clarabel.Kkt.LemmasDense Clarabel.Kkt.LemmasUpdate Clarabel.Kkt.LemmasSchurDense.
+Require Import Clarabel.Kkt.LemmasOrder Clarabel.Kkt.LemmasDiagPos Clarabel.Kkt.LemmasAssemble Clarabel.Kkt.LemmasTril Clarabel.Kkt.LemmasDense Clarabel.Kkt.LemmasUpdate Clarabel.Kkt.LemmasSchurDense Clarabel.Kkt.LemmasQuasidef.
 
 (** eliminating the auxiliary variables of a sparse expansion reproduces the cone's H *)
 Theorem C11_soc_expansion_schur : stmt_soc_expansion_schur.
@@ -76,6 +76,13 @@ Proof. exact kkt_spec_dense_tril_ok. Qed.
 (** the chain closed for the sparse SOC: Schur complement of the dense object *)
 Theorem C11_soc_schur_dense : stmt_soc_schur_dense.
 Proof. exact soc_schur_dense_ok. Qed.
+Theorem C11_genpow_schur_dense : stmt_genpow_schur_dense.
+Proof. exact genpow_schur_dense_ok. Qed.
+(** inertia_matches_signs, block form: quasi-definiteness in the recorded sign pattern *)
+Theorem C11_quasidef_blocks : stmt_quasidef_blocks.
+Proof. exact quasidef_blocks_ok. Qed.
+Theorem C11_soc_expansion_signs : stmt_soc_expansion_signs.
+Proof. exact soc_expansion_signs_ok. Qed.
 (** value updates through the maps *)
 Theorem C11_update_values_frame : stmt_update_values_frame.
 Proof. exact update_values_frame_ok. Qed.
